@@ -1,4 +1,42 @@
-(* Model/DispatchC01.v — the timezone dispatch of Model/TzDispatch.v.  fn-table: TzDispatch *)
-From Coq Require Import ZArith List.
-From PV Require Import Model.TzDispatch.
-Definition dispatch (fn : Z) (args : list Z) : list Z := TzDispatch.dispatch fn args.
+(* Model/DispatchC01.v — the entries of Model/TzDispatch.v (same numbers and argument layout; repeated here because the extracted
+   entry point must be the only function named `dispatch`) plus the float route of from_timestamp(<float>) / timestamp() (Model/FloatRoutes.v).
+   A zone is passed as  init :: n :: t1 :: o1 :: ... ; a float as (tag, mantissa, exponent) = TdFloat.sf_code. *)
+From Coq Require Import ZArith List Bool.
+From Coq Require Import Floats.SpecFloat.
+From PV Require Import Lib.PyBase Spec.Cal Spec.Zone Spec.NativeDT Spec.TdFloat Gen.AddDuration Model.TzConvert Model.TzDispatch Model.FloatRoutes.
+Import ListNotations.
+Open Scope Z_scope.
+
+Definition dispatch (fn : Z) (args : list Z) : list Z :=
+  match parse_zone args with
+  | None => [9]
+  | Some (z, rest) =>
+    match fn, rest with
+    | 1 (* zone_probe *), [u; w] =>
+        [0; off_utc z u; Z.b2z (fold_utc z u); off_local z w false; off_local z w true; Z.b2z (wf_zone z); Z.b2z (wf2_zone z)]
+    | 2 (* create *), [fixed; W; f; r] => out_dt z (create z (zb fixed) W (zb f) (zb r))
+    | 4 (* add_fixed *), [W; f; h; m; s; us] => out_dt z (add_fixed z W (zb f) h m s us)
+    | 5 (* add_naive *), [W; f; y; mo; wk; d; h; m; s; us] =>
+        match add_naive W (zb f) y mo wk d h m s us with Ok (W', f') => [0; W'; Z.b2z f'] | Raise e => [1; exn_code e] end
+    | 6 (* add_calendar *), [fixed; W; y; mo; wk; d; h; m; s; us] => out_dt z (add_calendar z (zb fixed) W y mo wk d h m s us)
+    | 7 (* int_timestamp *), [W; f] => [0; int_timestamp z W (zb f)]
+    | 8 (* from_timestamp_int *), [isutc; n] => out_dt z (from_timestamp_int z (zb isutc) n)
+    | 9 (* add_duration *), [W; isdt; y; mo; wk; d; h; m; s; us] =>
+        match py_add_duration (mkndt W (zb isdt)) y mo wk d h m s us with Ok d' => [0; n_wall d'] | Raise e => [1; exn_code e] end
+    | 3 (* in_tz *), _ =>
+        match parse_zone rest with
+        | Some (z2, [same; W; f]) => out_dt z2 (in_tz (zb same) z z2 W (zb f))
+        | _ => [9]
+        end
+    | 20 (* from_timestamp_float *), [isutc; t; m; e] =>
+        (* the DateTime, then its timestamp() *)
+        match from_timestamp_float z (zb isutc) (sf_decode t m e) with
+        | Ok (W, f) => [0; W; Z.b2z f; off_local z (W / MEG) f] ++ sf_code (timestamp_float z W f)
+        | Raise ex => [1; exn_code ex]
+        end
+    | 21 (* timestamp_float *), [W; f] => 0 :: sf_code (timestamp_float z W (zb f))
+    | 22 (* utcfromtimestamp_float_us *), [t; m; e] =>
+        match utcfromtimestamp_float_us (sf_decode t m e) with Ok n => [0; n] | Raise ex => [1; exn_code ex] end
+    | _, _ => [9]
+    end
+  end.
